@@ -91,8 +91,8 @@ mutual
     | .setReg _ _, il, im, h, d, hd => by simp [defsS] at hd
     | .units _, il, im, h, d, hd => by simp [defsS] at hd
     | .actAll _, il, im, h, d, hd => by simp [defsS] at hd
-    | .setDefault, il, im, h, d, hd => by simp [defsS] at hd
-    | .action k ops, il, im, h, d, hd => by
+    | .setDefault _, il, im, h, d, hd => by simp [defsS] at hd
+    | .action k _ ops, il, im, h, d, hd => by
       simp only [wsStmt] at h
       simp only [defsS] at hd
       exact ws_defs_ops ops im h d hd
@@ -287,8 +287,8 @@ mutual
     | .setReg _ _ => true
     | .units _ => true
     | .actAll _ => true
-    | .setDefault => true
-    | .action _ ops => flatOps ops
+    | .setDefault _ => true
+    | .action _ _ ops => flatOps ops
     | .get _ => true
     | .wait => true
     | .timeAt _ => true
@@ -324,8 +324,8 @@ mutual
     | .setReg _ _, _ => by rw [defsS]
     | .units _, _ => by rw [defsS]
     | .actAll _, _ => by rw [defsS]
-    | .setDefault, _ => by rw [defsS]
-    | .action _ ops, h => by
+    | .setDefault _, _ => by rw [defsS]
+    | .action _ _ ops, h => by
       simp only [flatS] at h
       rw [defsS]; exact flat_defsOps ops h
     | .get _, _ => by rw [defsS]
@@ -441,8 +441,8 @@ get "a"  wait  time at 8:00 or 9:*   assign x {1 + [round [sin 1]]}
 print 1  println  println 2  printf "{}" 1 [cos 2]   define m 1
 ``` -/
 def demoStraight : Block := B [
-  .setReg .hue (num 3), .units .raw, .actAll .on, .setDefault,
-  .action .set (Operands.ofList [.light (.str "a"), .group (.var "g"),
+  .setReg .hue (num 3), .units .raw, .actAll .on, .setDefault true,
+  .action .set true (Operands.ofList [.light (.str "a"), .group (.var "g"),
     .zone (.str "z") ⟨num 1, some (num 2)⟩,
     .matrixInline (.str "m") (some ⟨num 1, none⟩) none true,
     .matrixBlock (.str "m") (B [.stage (some ⟨num 1, none⟩) none false,
@@ -476,7 +476,7 @@ def demoStructured : Block := B [
   .repeat_ (.locations "l" (some (.cycle "v" (some (num 1))))) (B [.brk]),
   .repeat_ (.iter [.light (.lit (.str "a")), .group (.var "g"), .location (.lit (.str "x")), .all]
     "l" none) (B [.ite (num 1) (B [.brk]) none]),
-  .action .set (Operands.ofList [.matrixBlock (.str "m") (B [.repeat_ .forever (B [.brk])])])]
+  .action .set true (Operands.ofList [.matrixBlock (.str "m") (B [.repeat_ .forever (B [.brk])])])]
 
 example : WellScoped demoStructured ∧ defsB demoStructured = [] := by decide
 
@@ -527,8 +527,8 @@ def demoNested : Block := B [
   .repeat_ (.count (num 2)) (B [
     .defRoutine "g" [] (B [.call "f" ["x"] (A [num 1])]),
     .call "f" ["x"] (A [rcall "g" [] []]),
-    .action .set (Operands.ofList [.matrixBlock (.str "m") (B [
-      .defRoutine "h" [] (B [.action .set (Operands.ofList
+    .action .set true (Operands.ofList [.matrixBlock (.str "m") (B [
+      .defRoutine "h" [] (B [.action .set false (Operands.ofList
         [.matrixInline (.str "m") (some ⟨num 1, none⟩) none false])])])]),
     .brk])]
 
@@ -611,7 +611,7 @@ example : (genProgram badBreakInRoutine).map (fun p => wfImage (load p)) = some 
 
 /-- a `break` out of a matrix block: jumps out of the `MATRIX … END matrix` bracket -/
 def badBreakInMatrix : Block :=
-  B [.repeat_ .forever (B [.action .set (Operands.ofList [.matrixBlock (.str "m") (B [.brk])])])]
+  B [.repeat_ .forever (B [.action .set true (Operands.ofList [.matrixBlock (.str "m") (B [.brk])])])]
 
 example : ¬ WellScoped badBreakInMatrix := by decide
 example : (genProgram badBreakInMatrix).map (fun p => wfImage (load p)) = some false := by
@@ -622,8 +622,8 @@ operand inside a matrix block -/
 example : ¬ WellScoped (B [.ret none]) ∧
     ¬ WellScoped (B [.defRoutine "f" [] (B []), .defRoutine "f" [] (B [.wait])]) ∧
     ¬ WellScoped (B [.call "nope" [] (A [])]) ∧
-    ¬ WellScoped (B [.action .set (Operands.ofList [.matrixBlock (.str "m")
-      (B [.action .set (Operands.ofList [.matrixInline (.str "m") none none false])])])]) := by
+    ¬ WellScoped (B [.action .set true (Operands.ofList [.matrixBlock (.str "m")
+      (B [.action .set false (Operands.ofList [.matrixInline (.str "m") none none false])])])]) := by
   decide
 
 /-- `break` outside any loop: no program at all -/
